@@ -40,7 +40,7 @@ def ta_state_findings(rec, cfg, machine):
         return out
     seq = rec['seq']
     pools = {p['name']: p for p in ta['pools']}
-    grants = {g['id']: g for g in ta['grants']}
+    grants = {g['id']: g for g in (ta['grants'] or [])}
     cache = {c['id']: c for c in rec['cache']}
     allowed = set(ta['allowed'])
     reserved = set(ta['reserved'])
@@ -65,6 +65,7 @@ def ta_state_findings(rec, cfg, machine):
 
     # --- C01 exclusivity
     gl = list(grants.values())
+    ta = dict(ta, grants=gl)
     for i, g in enumerate(gl):
         E = set(g['exclusive'])
         if not E:
@@ -205,30 +206,29 @@ def mem_findings(rec, lm, preserve, pin_mem, machine, seq, managed, pin_by_ctr=N
     return out
 
 
-def ta_pristine_findings(first, rec):
+def ta_pristine_findings(first, rec, same_config=True):
     """C09: quiescent state equals the state right after configuration."""
     out = []
     ta, ta0 = rec.get('ta'), first.get('ta')
     if not ta or not ta0:
         return out
     seq = rec['seq']
-    if ta['grants']:
+    if ta.get('grants'):
         out.append(F('C09', 'no-dangling-grant', 'grant-after-drain', 'grants left after all containers were removed: %s' % [g['id'] for g in ta['grants']], seq))
-    if ta['libmem']['users']:
+    if ta['libmem'].get('users'):
         out.append(F('C09', 'no-memory-allocations', 'libmem-request-after-drain', 'memory allocations left: %s' % ta['libmem']['users'], seq))
-    p0 = {p['name']: p for p in ta0['pools']}
     for p in ta['pools']:
-        q = p0.get(p['name'])
-        if not q:
-            continue
-        for k in ('free_iso', 'free_res', 'free_shar', 'granted_shared', 'granted_reserved'):
-            if p[k] != q[k]:
-                out.append(F('C09', 'pristine-capacity', 'pool-not-pristine', 'pool %s: %s is %s, was %s after configuration' % (p['name'], k, p[k], q[k]), seq))
-    z0 = {z['name']: z for z in first['zones']}
-    for z in rec['zones']:
-        y = z0.get(z['name'])
-        if y and (z['res'] != y['res'] or z['attrs'] != y['attrs']):
-            out.append(F('C09', 'pristine-zones', 'zones-not-pristine', 'zone %s differs from its initial report: %s vs %s' % (z['name'], z, y), seq))
+        for k, t in (('free_iso', 'iso'), ('free_res', 'res'), ('free_shar', 'shar')):
+            if p[k] != p[t]:
+                out.append(F('C09', 'pristine-capacity', 'pool-not-pristine', 'pool %s: %s is %s but the total %s set is %s' % (p['name'], k, p[k], t, p[t]), seq))
+        if p['granted_shared'] or p['granted_reserved']:
+            out.append(F('C09', 'pristine-capacity', 'ledger-not-zero', 'pool %s: granted shared/reserved %d/%d after drain' % (p['name'], p['granted_shared'], p['granted_reserved']), seq))
+    if same_config:
+        z0 = {z['name']: z for z in first['zones']}
+        for z in rec['zones']:
+            y = z0.get(z['name'])
+            if y and (z['res'] != y['res'] or z['attrs'] != y['attrs']):
+                out.append(F('C09', 'pristine-zones', 'zones-not-pristine', 'zone %s differs from its initial report: %s vs %s' % (z['name'], z, y), seq))
     return out
 
 
@@ -280,8 +280,7 @@ def c05_findings(rv, ev, rec, prev_cache):
     if op == 'CreateContainer' and rep['class'] == 'ok':
         cid = ev['ctr']['id']
         res = ev['ctr'].get('res') or {}
-        rv.view[cid] = {'shares': res.get('shares'), 'quota': res.get('quota'), 'period': res.get('period'), 'memlimit': res.get('memlimit'),
-                        'cpus': None, 'mems': None}
+        rv.view[cid] = {}
         rv.stopped.discard(cid)
         rv.removed.discard(cid)
         adj = rep.get('adjust')
@@ -294,14 +293,6 @@ def c05_findings(rv, ev, rec, prev_cache):
         for u in updates:
             if u['id'] == cid:
                 out.append(F('C05', 'adjust-only-created', 'update-for-container-being-created', 'update addresses the container being created %s' % cid, seq))
-    if op == 'UpdateContainer' and rep['class'] == 'ok' and ev.get('res') and not ev.get('nilres'):
-        # the runtime applies the resources it proposed unless the plugin's update overrides them
-        cid = ev['ctr']['id']
-        if cid in rv.view:
-            r = ev['res']
-            for f in ('shares', 'quota', 'period', 'memlimit'):
-                if r.get(f) is not None:
-                    rv.view[cid][f] = r[f]
     seen = set()
     for u in rep.get('updates') or []:
         if u['id'] in seen:
@@ -318,27 +309,31 @@ def c05_findings(rv, ev, rec, prev_cache):
             out.append(F('C05', 'no-update-to-stopped', 'update-to-%s-container' % what,
                          '%s: update addressed to %s container %s: %s' % (op, what, u['id'], {k: v for k, v in u.items() if v is not None}), seq))
         rv.apply(u)
-    # runtime view == cache view for every live container
+    # runtime view == cache view for every live container: every field the plugin ever told
+    # must equal the cache, and a cached value that changed in this request must have been told
+    prev = {c['id']: c for c in (prev_cache or [])}
     for c in rec['cache']:
         cid = c['id']
         if c['state'] not in LIVE or cid in rv.stopped or cid in rv.removed:
             continue
         v = rv.view.get(cid)
         if v is None:
-            continue       # never created through us (synchronized-in): runtime values unknown
-        for f in ('cpus', 'mems'):
+            continue       # never created through us (synchronized-in): nothing told yet
+        pc = prev.get(cid)
+        for f in FIELDS:
             cv = c[f]
-            if (v.get(f) or '') != cv and not (v.get(f) is None and cv == ''):
-                out.append(F('C05', 'view-eq-cache', 'runtime-view-differs:' + f,
-                             '%s: container %s cache %s=%r but the runtime was told %r' % (op, cid, f, cv, v.get(f)), seq))
-        for f, cf in (('shares', 'shares'), ('quota', 'quota'), ('period', 'period'), ('memlimit', 'memlimit')):
-            cv = c[cf]
-            rvv = v.get(f)
-            if cv and rvv is not None and cv != rvv:
-                out.append(F('C05', 'view-eq-cache', 'runtime-view-differs:' + f,
-                             '%s: container %s cache %s=%r but the runtime was told %r' % (op, cid, f, cv, rvv), seq))
-        if c['pending'] and rep['class'] == 'ok':
-            out.append(F('C05', 'nothing-pending', 'pending-after-reply', '%s: container %s still has pending changes after the reply' % (op, cid), seq))
+            told = v.get(f)
+            if told is not None:
+                same = (told == cv) if f in ('cpus', 'mems') else (told == cv or (cv == 0 and told is None))
+                if not same:
+                    out.append(F('C05', 'view-eq-cache', 'runtime-view-differs:' + f,
+                                 '%s: container %s cache %s=%r but the plugin last told the runtime %r' % (op, cid, f, cv, told), seq))
+            elif pc is not None and pc[f] != cv and cv not in ('', 0):
+                out.append(F('C05', 'view-eq-cache', 'cache-change-never-told:' + f,
+                             '%s: container %s cache %s changed %r -> %r but was never told to the runtime' % (op, cid, f, pc[f], cv), seq))
+        if c['pending']:
+            sig = 'pending-after-reply' if rep['class'] == 'ok' and op not in ('RunPodSandbox', 'StopPodSandbox', 'RemovePodSandbox', 'StartContainer', 'RemoveContainer', 'Restart') else 'pending-after-failed-or-nonflushing-request'
+            out.append(F('C05', 'nothing-pending', sig, '%s (%s): container %s still has pending changes after the reply' % (op, rep['class'], cid), seq))
     return out
 
 
